@@ -889,6 +889,10 @@ class M_run_node(CoroBase):
             out.append(('never-saves-a-contained-failure|C19', z3.Not(PyV.is_exc(res))))
             exd = [e for e in effects if e.kind == 'executed']
             out.append(('saves-only-a-value-this-call-actually-executed|C19', exd[0].first_arrival if exd else False))
+            # "exactly once ... so a write-once store never makes an otherwise correct pipeline fail": every node of a
+            # re-iterated scope was executed, and saved, before the scope was re-run; a save in a re-run scope is a second one
+            out.append(('a-node-re-executed-by-a-recurrent-iteration-is-not-handed-to-the-store-again|C19',
+                        z3.Not(B(SubV(pre, a.dag).is_recurrent))))
         else:
             # no save on this path: allowed exactly for what is not a final value (a Recurrent marker, a contained failure)
             out.append(('every-final-value-reaches-the-store|C19', z3.Or(is_rec, PyV.is_exc(res))))
